@@ -159,6 +159,22 @@ def _stepping(ck, P, cfg):
         ck.holds("C08.2", "drain-loop:mpi", last[-1].where, "the flushing rounds keep receiving (and discarding) remote messages and control messages", cfg)
     else:
         ck.violated("C08.2", "drain-loop:mpi", d.where, "the flushing rounds never poll MPI: GVT control messages of the final rounds are not received and the loop spins forever", cfg)
+    # the flushing rounds must not wait for the configured GVT period: the timer is forced before each of them
+    forced = [n for n in d.walk() if n.k == "BinaryOperator" and n.op == "=" and X.show(n.children[0]) == "gvt_timer" and X.const_int(n.children[1]) == 0]
+    if last and forced and any(f_.is_inside(o) and last[-1].is_inside(o) and g.dominates(f_, next(x for x in last[-1].walk() if x.id in g.pos)) for f_ in forced for o in d.walk() if o.k == "ForStmt"):
+        ck.holds("C08.2", "drain-loop:timer", forced[0].where, "gvt_timer is reset before each flushing round: the round starts at once, whatever the configured period", cfg)
+    elif last:
+        ck.violated("C08.2", "drain-loop:timer", last[-1].where, "the flushing rounds wait for the configured GVT period to elapse (the timer is not forced): with a long period the shutdown takes unboundedly long", cfg)
+    # both receive paths dispatch control messages
+    for fname in ("mpi_remote_msg_handle", "mpi_remote_msg_drain"):
+        h = P.fn(fname)
+        cs = list(h.calls("control_msg_process"))
+        rc = [c for c in h.calls("MPI_Mrecv") if X.show(X.callee_args(c)[0]).startswith("&") and "dest" not in X.show(X.callee_args(c)[0])]
+        inst = "ctrl-dispatch@%s" % fname
+        if len(cs) == 1 and len(rc) == 1 and h.cfg.dominates(rc[0], cs[0]) and X.show(X.callee_args(cs[0])[0]) == X.show(X.callee_args(rc[0])[0])[1:]:
+            ck.holds("C08.2", inst, cs[0].where, "a received control code is handed to control_msg_process", cfg)
+        else:
+            ck.violated("C08.2", inst, h.where, "%s receives control messages without dispatching them: a GVT start / termination notice arriving here is lost" % fname, cfg)
     # partial-round flush precedes the first barrier
     bars = list(d.calls(BARRIER))
     flush = [l for l in loops if any("thread_phase" in X.show(c) for c in l.children if c.k not in ("CompoundStmt", "Null"))]
